@@ -94,6 +94,8 @@ def main():
             steps = rng.randint(1, 2 ** n - n - 2)
             repetitions = reps_choices[ci % len(reps_choices)]
             seed = a.seed * 1000 + ci * 17 + n
+            if ci % 8 == 5:
+                seed = 0 if n % 2 else 2 ** 32      # boundary seeds are seeds like any other (seed C12-f: `seed or <timestamp>`)
             first = None
             # p = 0: eval_one called directly, repetition by repetition; p < 0: the `solve` COMMAND (argument parser -> ModelInstance ->
             # solve_func -> save -> data.json read back) with -p worker processes, compared with the direct evaluate() of the same seed
